@@ -370,6 +370,9 @@ Proof.
   intros H. cbn [trk_loop]. unfold trk_step. replace (n <=? 0) with false by lia. reflexivity.
 Qed.
 
+Lemma Ok_inj {A} (a b : A) : Ok a = Ok b -> a = b.
+Proof. intros H. injection H as ->. reflexivity. Qed.
+
 (* the three parts of the TRK theorem, for a file hf ++ recs whose header block parses *)
 Section TrkFile.
   Variables (o : trk_offs) (hf : list Z) (sl : list trk_stream) (S P : Z) (ss ps : sdict).
@@ -415,6 +418,107 @@ Section TrkFile.
     + rewrite parse_bad_hsize; [eexists; reflexivity|]. rewrite H996. apply Hsmall. lia.
   Qed.
 
+  (* ---- repeated reads from one lazily loaded object *)
+  Let infoN := mkInfo false (zlen sl) S P ss ps.
+
+  Lemma trk_open_cut_records n : 1000 <= n ->
+    trk_open o (take n (hf ++ recs)) = Ok (infoN, take (n - 1000) recs).
+  Proof.
+    intros Hn. unfold trk_open. rewrite !takez_eq, !dropz_eq. change trk_header_size with 1000.
+    rewrite take_app_ge by lia. rewrite L5. rewrite (take_app_len 1000) by exact L5.
+    rewrite L5. change (zeros (1000 - 1000)) with (@nil Z). rewrite app_nil_r, Pr.
+    cbn [i_nscal i_nprop]. replace ((S <? 0) || (P <? 0)) with false by lia.
+    rewrite (drop_app_len 1000) by exact L5. reflexivity.
+  Qed.
+
+  Lemma trk_open_cut_header n : 0 <= n < 1000 ->
+    (exists e, trk_open o (take n (hf ++ recs)) = Err e) \/ trk_open o (take n (hf ++ recs)) = Ok (infoN, []).
+  Proof.
+    intros Hn. unfold trk_open. rewrite !takez_eq, !dropz_eq. change trk_header_size with 1000.
+    rewrite take_app_le by lia.
+    assert (Lp : zlen (take n hf) = n) by (rewrite zlen_take; lia).
+    rewrite (take_all 1000) by lia. rewrite Lp.
+    destruct (padded_header hf n L5 Ghs ltac:(lia)) as [Hbig Hsmall]. cbv zeta in Hbig, Hsmall.
+    destruct (Z.le_gt_cases 998 n) as [H8|H8].
+    + right. rewrite (Hbig H8), Pr. cbn [i_nscal i_nprop].
+      replace ((S <? 0) || (P <? 0)) with false by lia. rewrite drop_all by lia. reflexivity.
+    + left. rewrite parse_bad_hsize; [eexists; reflexivity|]. rewrite H996. apply Hsmall. lia.
+  Qed.
+
+  Lemma take_loop_first fuel be ncols nprop N d l : 0 < N ->
+    trk_take_loop (Datatypes.S (Datatypes.S fuel)) be ncols nprop (Some N) 0 1 d [] = Ok l -> l <> [].
+  Proof.
+    intros HN. cbn [trk_take_loop length Nat.leb]. unfold trk_step at 1. replace (N <=? 0) with false by lia.
+    destruct (zlen (takez 4 d) =? 0); [discriminate|]. destruct (zlen (takez 4 d) <? 4); [discriminate|].
+    destruct (dec_s be (takez 4 d) <? 0); [discriminate|].
+    destruct (zlen _ <? _); [discriminate|]. destruct (zlen _ <? _); [discriminate|].
+    intros H. apply Ok_inj in H. subst l. discriminate.
+  Qed.
+
+  Lemma retry_all_none k data : 0 < zlen sl ->
+    (forall fuel, exists e, trk_loop fuel false (3 + S) P (Some (zlen sl)) 0 data [] = Err e) ->
+    trk_retry_passes k infoN (zlen sl) data = repeat None k.
+  Proof.
+    intros HN H. induction k as [|k IH]; [reflexivity|]. cbn [trk_retry_passes repeat].
+    unfold infoN at 1 2 3 4. cbn [i_be i_nscal i_nprop]. unfold trk_nb. replace (zlen sl =? 0) with false by lia.
+    destruct (H (Datatypes.S (length data))) as [e ->]. f_equal. exact IH.
+  Qed.
+
+  (* every pass over a strict prefix raises, however many times the caller retries *)
+  Lemma trk_lazy_retry_prefix k n : 0 <= n < zlen (hf ++ recs) ->
+    trk_lazy_retry o k (take n (hf ++ recs)) = None \/ trk_lazy_retry o k (take n (hf ++ recs)) = Some (repeat None k).
+  Proof.
+    intros Hlen. rewrite zlen_app, L5 in Hlen. unfold trk_lazy_retry.
+    destruct (zlen (take n (hf ++ recs)) =? 0); [now left|].
+    assert (Hrecs : 0 < zlen recs).
+    { unfold recs. destruct sl as [|s0 sl0]; [change (zlen (@nil trk_stream)) with 0 in Hsl0; lia|].
+      cbn [flat_map]. rewrite zlen_app. unfold trk_record at 1. rewrite !zlen_app, zlen_enc_s.
+      pose proof (zlen_nonneg (flat_map (enc_list false 4) (s_rows s0))). pose proof (zlen_nonneg (enc_list false 4 (s_props s0))).
+      pose proof (zlen_nonneg (flat_map (trk_record false) sl0)). lia. }
+    assert (Hdata : exists m, 0 <= m < zlen recs /\
+              ((exists e, trk_open o (take n (hf ++ recs)) = Err e) \/ trk_open o (take n (hf ++ recs)) = Ok (infoN, take m recs))).
+    { destruct (Z.le_gt_cases 1000 n) as [Hge|Hlt].
+      - exists (n - 1000). split; [lia|]. right. now apply trk_open_cut_records.
+      - exists 0. split; [lia|]. destruct (trk_open_cut_header n ltac:(lia)) as [E|E]; [now left|right].
+        rewrite E. rewrite take_0 by lia. reflexivity. }
+    destruct Hdata as (m & Hm & Hopen). destruct Hopen as [[e Eo]|Eo]; rewrite Eo; [now left|].
+    cbn [i_be i_nscal i_nprop i_count infoN].
+    assert (Enb : trk_nb (zlen sl) = Some (zlen sl)) by (unfold trk_nb; replace (zlen sl =? 0) with false by lia; reflexivity).
+    rewrite Enb.
+    match goal with |- context [match ?X with Ok _ => _ | Err _ => _ end] => destruct X as [first|] eqn:Ef end; [|now left].
+    apply take_loop_first in Ef; [|lia]. right. f_equal.
+    destruct first as [|f0 fr]; [congruence|].
+    apply retry_all_none; [lia|]. intros fuel.
+    apply (trk_loop_prefix_err false S P S0 P0 sl fuel 0 [] (zlen sl) m Hsl ltac:(lia)). fold recs. lia.
+  Qed.
+
+  Lemma retry_all_data k : 0 < zlen sl ->
+    trk_retry_passes k infoN (zlen sl) recs = repeat (Some sl) k.
+  Proof.
+    intros HN. induction k as [|k IH]; [reflexivity|]. cbn [trk_retry_passes repeat].
+    cbn [i_be i_nscal i_nprop infoN]. unfold trk_nb. replace (zlen sl =? 0) with false by lia.
+    unfold recs. rewrite (trk_loop_records false S P S0 P0 sl _ 0 [] (zlen sl) Hsl); [|pose proof (records_length false sl); lia|lia].
+    cbn [rev app]. f_equal. exact IH.
+  Qed.
+
+  (* on the complete file every pass yields all the streamlines *)
+  Lemma trk_lazy_retry_full k : trk_lazy_retry o k (hf ++ recs) = Some (repeat (Some sl) k).
+  Proof.
+    unfold trk_lazy_retry. pose proof (zlen_nonneg recs) as Hr.
+    replace (zlen (hf ++ recs) =? 0) with false by (rewrite zlen_app, L5; lia).
+    rewrite <- (take_all (zlen (hf ++ recs)) (hf ++ recs)) at 1 by lia.
+    rewrite trk_open_cut_records by (rewrite zlen_app, L5; lia).
+    rewrite zlen_app, L5. replace (1000 + zlen recs - 1000) with (zlen recs) by lia. rewrite take_all by lia.
+    cbn [i_be i_nscal i_nprop i_count infoN].
+    assert (Enb : trk_nb (zlen sl) = Some (zlen sl)) by (unfold trk_nb; replace (zlen sl =? 0) with false by lia; reflexivity).
+    rewrite Enb.
+    assert (Ep : exists s0, trk_take_loop (Datatypes.S (Datatypes.S (length recs))) false (3 + S) P (Some (zlen sl)) 0 1 recs [] = Ok [s0]).
+    { unfold recs. destruct sl as [|s0 sl0]; [change (zlen (@nil trk_stream)) with 0 in Hsl0; lia|].
+      exists s0. inversion Hsl as [|? ? Hs Hsl']; subst. cbn [flat_map trk_take_loop length Nat.leb].
+      rewrite trk_step_record by (assumption || lia). cbn [length Nat.leb rev app]. reflexivity. }
+    destruct Ep as [s0 ->]. f_equal. now apply retry_all_data.
+  Qed.
+
   Lemma trk_file_prefix n : 0 <= n < zlen (hf ++ recs) -> decode_trk false o (take n (hf ++ recs)) = None.
   Proof.
     intros Hlen. rewrite zlen_app, L5 in Hlen. unfold decode_trk.
@@ -424,9 +528,6 @@ Section TrkFile.
     - destruct (trk_cut_header n ltac:(lia)) as [e E]. rewrite E. reflexivity.
   Qed.
 End TrkFile.
-
-Lemma Ok_inj {A} (a b : A) : Ok a = Ok b -> a = b.
-Proof. intros H. injection H as ->. reflexivity. Qed.
 
 Lemma trk_prefix_err o u skeys pkeys sl :
   wf_offs o = true -> o_hsize o = 996 -> wf_user u -> sl <> [] -> zlen sl < 2 ^ 31 ->
@@ -687,4 +788,58 @@ Proof.
   exists F. split; [exact E1|]. split; [exact E2|]. intros strict n Hn. destruct strict; [|now apply E3].
   destruct (decode_trk true o (take n F)) as [x|] eqn:E; [|reflexivity].
   apply decode_trk_strict_le in E. rewrite E3 in E by assumption. discriminate.
+Qed.
+
+(* ------------------------------------------------------------------ repeated lazy reads *)
+Lemma trk_lazy_retry_all o u skeys pkeys sl :
+  wf_offs o = true -> o_hsize o = 996 -> wf_user u -> sl <> [] -> zlen sl < 2 ^ 31 ->
+  Forall wf_key skeys -> Forall wf_key pkeys ->
+  NoDup (map fst skeys) -> NoDup (map fst pkeys) -> zlen skeys <= 10 -> zlen pkeys <= 10 ->
+  widths skeys < 2 ^ 15 -> widths pkeys < 2 ^ 15 ->
+  Forall (wf_tstream (widths skeys) (widths pkeys)) sl ->
+  exists F, trk_save o (mkF 0 []) u skeys pkeys sl = Ok F
+    /\ (forall k, trk_lazy_retry o k F = Some (repeat (Some sl) k))
+    /\ (forall k n, 0 <= n < zlen F ->
+          trk_lazy_retry o k (take n F) = None \/ trk_lazy_retry o k (take n F) = Some (repeat None k)).
+Proof.
+  intros H H996 Hu Hne Hn Hsk Hpk Nds Ndp Lsk Lpk HS HP Hsl.
+  assert (S0 : 0 <= widths skeys).
+  { destruct skeys; [cbn; lia|]. pose proof (widths_pos _ Hsk ltac:(discriminate)). lia. }
+  assert (P0 : 0 <= widths pkeys).
+  { destruct pkeys; [cbn; lia|]. pose proof (widths_pos _ Hpk ltac:(discriminate)). lia. }
+  assert (Hsl0 : 0 < zlen sl).
+  { destruct sl; [congruence|]. rewrite zlen_cons. pose proof (zlen_nonneg sl). lia. }
+  pose proof (trk_save_bytes o u skeys pkeys sl [] (widths skeys) (widths pkeys) H Hu Hne Hn Hsk Hpk Lsk Lpk Hsl S0 P0) as Es.
+  destruct (template_facts o u H Hu) as (Lt & Ths & Tv).
+  destruct (hdr_final_parse o (trk_template o u) skeys pkeys (zlen sl) (widths skeys) (widths pkeys)
+              H Lt Ths Tv Hsk Hpk Nds Ndp Lsk Lpk eq_refl eq_refl ltac:(lia) ltac:(lia) ltac:(lia)) as (L5 & Pr & Ghs).
+  cbv zeta in L5, Pr, Ghs.
+  remember (hdr_final o (trk_template o u) (flat_map enc_field pkeys ++ zeros (200 - 20 * zlen pkeys))
+              (flat_map enc_field skeys ++ zeros (200 - 20 * zlen skeys)) (zlen sl) (widths skeys) (widths pkeys)) as hf eqn:Ehf.
+  rewrite H996, enc_s_1000 in Ghs.
+  exists (hf ++ flat_map (trk_record false) sl). split; [|split].
+  - change (zlen (@nil Z)) with 0 in Es. rewrite Es, app_nil_l. reflexivity.
+  - intros k. exact (trk_lazy_retry_full o hf sl (widths skeys) (widths pkeys) _ _ L5 Pr S0 P0 Hsl Hsl0 k).
+  - intros k n Hlen.
+    exact (trk_lazy_retry_prefix o hf sl (widths skeys) (widths pkeys) _ _ L5 Pr H996 Ghs S0 P0 Hsl Hsl0 k n Hlen).
+Qed.
+
+Lemma repeat_eq {A} (x y : A) k : x = y -> repeat x k = repeat y k.
+Proof. now intros ->. Qed.
+
+Lemma tck_lazy_retry_all items sl b h :
+  wf_items items -> Forall wf_stream8 sl -> 0 <= b -> tck_header (zlen sl) items = Ok h ->
+  forall k n, 0 <= n < zlen (h ++ tck_data sl) ->
+    tck_lazy_retry b k (take n (h ++ tck_data sl)) = None
+    \/ tck_lazy_retry b k (take n (h ++ tck_data sl)) = Some (repeat None k).
+Proof.
+  intros Hwf Hsl Hb Eh k n Hn.
+  pose proof (tck_prefix_all items sl b h Hwf Hsl Hb Eh false n Hn) as D.
+  unfold decode_tck in D. unfold tck_lazy_retry.
+  destruct (zlen (take n (h ++ tck_data sl)) =? 0); [now left|]. cbn [res_opt] in D.
+  unfold tck_load in D.
+  destruct (tck_parse_header (take n (h ++ tck_data sl))) as [[be off]|]; [|now left].
+  destruct (off <? 0); [now left|].
+  destruct (tck_take_loop _ _ _ _ _ _ _); [|now left]. right. f_equal. apply repeat_eq.
+  destruct (tck_read_data be (tck_bufsize b) (dropz off (take n (h ++ tck_data sl)))); [discriminate D|reflexivity].
 Qed.
